@@ -1,0 +1,20 @@
+//go:build verif
+
+package goldilocks
+
+import "github.com/consensys/gnark/frontend"
+
+// Test-only hooks for the external verification harness (build tag "verif").
+
+// VerifResetChips empties the per-API chip cache so that long fuzzing runs that create one
+// API object per case do not retain every chip ever built.
+func VerifResetChips() {
+	mutex.Lock()
+	defer mutex.Unlock()
+	poseidonChips = make(map[frontend.API]*Chip)
+}
+
+// VerifRangeCheckerType reports which range-check mechanism the chip selected.
+func (p *Chip) VerifRangeCheckerType() RangeCheckerType {
+	return p.rangeCheckerType
+}
